@@ -22,6 +22,9 @@ import time
 from evosim import engine, runner
 
 ALL = ['C%02d' % i for i in range(1, 19)]
+# indices at which the dedicated scenario families of the checks sit
+# (index % 4 / 8 / 10 / 16 / 25 selectors in the generators)
+EXTRA_INDICES = [5, 7, 9, 10, 23, 24]
 
 
 def digests(props, seed, count, workers):
@@ -35,7 +38,7 @@ def digests(props, seed, count, workers):
             initargs=(os.environ.get('EVOSIM_REPO', '/repo'),)) as ex:
         futs = {}
         for pid in props:
-            for i in range(count):
+            for i in sorted(set(list(range(count)) + EXTRA_INDICES)):
                 futs[ex.submit(engine._work, pid, seed, i, 'quick',
                                os.environ.get('EVOSIM_REPO', '/repo'))] = \
                     (pid, i)
